@@ -2376,6 +2376,18 @@ ure_exec(ure_dfa_t dfa, int flags, ucs2_t *text, unsigned long textlen,
 	      break;
 	  }
 	}
+	if (found == 0 && ams == (unsigned long) ~0
+	    && ms != (unsigned long) ~0) {
+	  /*
+	   * The text ended within an attempt which has no complete
+	   * match: as after a failed attempt go on at the character
+	   * following its start ("a" in "cac" for "(ca)*a", the text of
+	   * a backward search ends just before the last occurrence).
+	   */
+	  sp = text + ms + 1;
+	  stp = dfa->states;
+	  ms = me = ~0;
+	}
       } else {
 	/*
 	 * Make sure any conditions that match all the way to the end
